@@ -849,7 +849,7 @@ func genCase(rng *hx.Rng, n int) []string {
 				ops = append(ops, fmt.Sprintf("commit %d", h1), "iter 0 - fwd 0")
 			}
 			g.batches = append(g.batches, h1, h2)
-		case x < 990:
+		case x < 985:
 			if len(g.batches) == 0 {
 				continue
 			}
@@ -874,7 +874,7 @@ func genCase(rng *hx.Rng, n int) []string {
 			default:
 				ops = append(ops, fmt.Sprintf("cancel %d", b))
 			}
-		case x < 995:
+		case x < 990:
 			// arm / disarm the injected Flush failure (error paths of flushkv, Copy, CopyBatched)
 			if !spy {
 				continue
